@@ -41,6 +41,8 @@
 #include <unistd.h>
 #include <algorithm>
 #include <mutex>
+#include <thread>
+#include <chrono>
 
 using vr::Outcome; using vr::ok; using vr::bad;
 using namespace c06;
@@ -126,7 +128,11 @@ struct Cfg {
         if (limit < 1) limit = 1; if (limit > 4096) limit = 4096;
         if (timeout < 1) timeout = 1; if (timeout > 1000000) timeout = 1000000;
         if (loc == L_CLIENT) { stor = 0; spy = 0; }
-        if (stor == S_NET) spy = 1;        // the spy is on the server side of the wire, always there
+        if (stor == S_NET) {               // the spy is on the server side of the wire, always there
+            spy = 1;
+            // pools over the network storage are kept for the life of the process (see net_pool()): keep the number of distinct ones small
+            limit = limit < 100 ? 64 : 200; timeout = timeout < 50 ? 10 : timeout < 500 ? 100 : 1000; enc = enc % 2;
+        }
     }
     std::string describe() const {
         return std::string("location=") + LOC[loc] + (loc != L_CLIENT ? std::string(" storage=") + STOR[stor] + (spy && stor != S_NET ? "+spy" : "") : "") + " expire=" + HOW[expire] +
@@ -147,6 +153,17 @@ static bool read_img(std::string const &path, std::string &out) {
     ::close(fd); return true;
 }
 static void write_img(std::string const &path, std::string const &d) { int fd = ::open(path.c_str(), O_CREAT | O_TRUNC | O_WRONLY, 0666); if (fd >= 0) { if (::write(fd, d.data(), d.size()) < 0) {} ::close(fd); } }
+
+// Every tcp_storage owns a booster::thread_specific_ptr, whose pthread key is not released while a thread that used it is alive
+// (the per-thread object holds a reference to the key): a process can create about a thousand of them.  One pool per distinct
+// configuration, kept for good, instead of one per case.
+static cppcms::session_pool *net_pool(cppcms::json::value const &js) {
+    static std::map<std::string, std::unique_ptr<cppcms::session_pool>> pools;
+    std::string key = js.save();
+    auto &p = pools[key];
+    if (!p) { p.reset(new cppcms::session_pool(js)); p->init(); }
+    return p.get();
+}
 
 struct Server {
     Cfg cfg; cppcms::json::value js;
@@ -179,7 +196,8 @@ struct Server {
                 spy = &ns.spy; spy->reset_case();
             }
         }
-        if (c.loc != L_CLIENT && c.stor == S_MEM && !c.spy) {           // the way an application gets it: through a cppcms::service
+        if (c.loc != L_CLIENT && c.stor == S_NET) pool = net_pool(js);
+        else if (c.loc != L_CLIENT && c.stor == S_MEM && !c.spy) {      // the way an application gets it: through a cppcms::service
             srv.reset(new cppcms::service(js)); pool = &srv->session_pool(); pool->init();
         } else {
             own.reset(new cppcms::session_pool(js)); pool = own.get();
@@ -239,17 +257,19 @@ struct Case {
     }
 };
 
+static std::atomic<long> g_progress{0};      // bumped per request (watchdog)
+
 // ---- the world: code under test + model in lock-step --------------------------------------------------------------------------
 static const char *KNOWN_EXPOSED_SIG = "exposed:cookie-not-refreshed-when-session-prolonged";
 
 struct World {
-    Server sv; Cfg const &cfg; int strict;   // strict: 0 = known defect class excluded, 1 = asserted (life time and presence), 2 = presence only
+    Server sv; Cfg const &cfg; bool lifetime_too;
     std::vector<std::unique_ptr<Jar>> jars;
     std::map<std::string, Snap> tokens;             // by session cookie value
     std::vector<std::string> issued, dead;          // in order of first appearance / of death
     std::set<std::string> issued_set;
     bool f_read_after_advance = false, f_switch = false, f_replay_dead = false;
-    World(Case const &c) : sv(c.cfg), cfg(sv.cfg), strict(c.strict) { for (int i = 0; i < cfg.nb; i++) jars.emplace_back(new Jar()); }
+    World(Case const &c) : sv(c.cfg), cfg(sv.cfg), lifetime_too(c.strict != 2) { for (int i = 0; i < cfg.nb; i++) jars.emplace_back(new Jar()); }
 
     std::string ctx(int b) { return " | cfg={" + cfg.describe() + "} now=T0+" + std::to_string(now() - T0) + " browser=" + std::to_string(b) + " jar={" + jars[b]->dump() + "}"; }
 
@@ -300,6 +320,7 @@ struct World {
 
     Outcome request(int b, std::vector<SubOp> const &ops) {
         Jar &jar = *jars[b];
+        g_progress++;
         jar.tick(); jar.begin();
         std::string token = jar.session();
         auto it = tokens.find(token);
@@ -436,37 +457,30 @@ struct World {
                     if (cur_how == BROWSER) V_CHECK(ck.session_only, "cookie:lifetime", "expiration=browser but the session cookie carries an expiry date" + after);
                     else V_CHECK(!ck.session_only && ck.expiry == deadline2, "cookie:lifetime", "the session cookie expires at " + (ck.session_only ? std::string("browser exit") : "T0+" + std::to_string(ck.expiry - T0)) + ", the session at T0+" + std::to_string(deadline2 - T0) + after);
                 }
-                // exposed values.  A cookie that the server had to send in this very request (new session, forced renewal, key newly
-                // exposed, value changed) is checked unconditionally.  An exposed key that did not change is sent by cppcms only
-                // in those cases: when the jar does not hold it (any more), holds an older value or an older life time, that is the
-                // reported defect KNOWN_EXPOSED_SIG -- excluded (counted) unless the case asks for it (strict).
+                // exposed values: after every write the jar holds exactly the exposed, non-empty values, each with the life time of
+                // the session cookie.  A key that did not change in this request used to be left alone by cppcms (cookie missing /
+                // older value / older life time while the session lives on): that was the defect KNOWN_EXPOSED_SIG, fixed by
+                // 02b1ca1; it keeps its own signature.  (lifetime_too == false: regression case that shows the visible consequence only.)
                 bool forced = !isnew && cur.same(L);
                 for (auto &kv : cur.data) {
                     std::string name = pre + kv.first; auto p = jar.c.find(name);
+                    auto lp = L.data.find(kv.first);
+                    bool changed_now = L.empty() || forced || lp == L.data.end() || !lp->second.exp || lp->second.v != kv.second.v;
                     if (kv.second.exp && !kv.second.v.empty()) {
-                        auto lp = L.data.find(kv.first);
-                        bool must_send = L.empty() || forced || lp == L.data.end() || !lp->second.exp || lp->second.v != kv.second.v;
                         bool in_step = p != jar.c.end() && p->second.session_only == ck.session_only && (ck.session_only || p->second.expiry == ck.expiry);
-                        if (must_send) {
+                        if (changed_now) {
                             V_CHECK(p != jar.c.end(), "exposed:missing", "key " + kv.first + " was exposed / changed in this request but there is no cookie " + name + after);
                             V_CHECK(p->second.value == kv.second.v, "exposed:value", "cookie " + name + " does not carry the exposed value" + after);
                             V_CHECK(in_step, "exposed:lifetime", "cookie " + name + " was sent with a life time other than the session cookie's" + after);
-                        } else if (p == jar.c.end()) {
-                            if (strict) V_CHECK(false, KNOWN_EXPOSED_SIG, "key " + kv.first + " is exposed in a live session but its cookie is not in the jar: it expired earlier than the session (or this browser never got it) and is only re-sent when the value changes" + after);
-                            VR.excl("unchanged exposed key whose cookie is not in the jar (known: " + std::string(KNOWN_EXPOSED_SIG) + ")");
-                        } else if (p->second.value != kv.second.v) {
-                            if (strict) V_CHECK(false, KNOWN_EXPOSED_SIG, "cookie " + name + " holds an older value: the key was changed through another browser and is not re-sent to this one" + after);
-                            VR.excl("unchanged exposed key whose cookie holds an older value (known: " + std::string(KNOWN_EXPOSED_SIG) + ")");
-                        } else if (!in_step) {
-                            if (strict == 1) V_CHECK(false, KNOWN_EXPOSED_SIG, "cookie " + name + " keeps its old life time while the session (and its cookie) was prolonged: it will leave the jar before the session ends" + after);
-                            VR.excl("unchanged exposed key whose cookie keeps an older life time (known: " + std::string(KNOWN_EXPOSED_SIG) + ")");
+                        } else {
+                            V_CHECK(p != jar.c.end(), KNOWN_EXPOSED_SIG, "key " + kv.first + " is exposed in a live session but its cookie is not in the jar: it expired earlier than the session (or this browser never got it) and was not re-sent because the value did not change" + after);
+                            V_CHECK(p->second.value == kv.second.v, KNOWN_EXPOSED_SIG, "cookie " + name + " holds an older value: the key was changed through another browser and is not re-sent to this one" + after);
+                            if (lifetime_too) V_CHECK(in_step, KNOWN_EXPOSED_SIG, "cookie " + name + " keeps its old life time while the session (and its cookie) was prolonged: it will leave the jar before the session ends" + after);
                         }
+                        VR.cls(changed_now ? "exposed:changed-key-checked" : "exposed:unchanged-key-checked");
                     } else if (kv.second.exp && p != jar.c.end()) {      // exposed but empty: the cookie has to go
-                        auto lp = L.data.find(kv.first);
-                        bool must_send = L.empty() || forced || lp == L.data.end() || !lp->second.exp || lp->second.v != kv.second.v;
-                        V_CHECK(!must_send, "exposed:stale-cookie", "the exposed key " + kv.first + " became empty in this request but cookie " + name + " is still in the jar" + after);
-                        if (strict) V_CHECK(false, KNOWN_EXPOSED_SIG, "cookie " + name + " holds an older value: the key was emptied through another browser and the removal is not re-sent to this one" + after);
-                        VR.excl("unchanged exposed key whose cookie holds an older value (known: " + std::string(KNOWN_EXPOSED_SIG) + ")");
+                        V_CHECK(!changed_now, "exposed:stale-cookie", "the exposed key " + kv.first + " became empty in this request but cookie " + name + " is still in the jar" + after);
+                        V_CHECK(false, KNOWN_EXPOSED_SIG, "cookie " + name + " holds an older value: the key was emptied through another browser and the removal is not re-sent to this one" + after);
                     } else V_CHECK(p == jar.c.end(), "exposed:stale-cookie", "key " + kv.first + " is not exposed but cookie " + name + " is in the jar" + after);
                 }
                 for (auto &kv : jar.c) if (kv.first.compare(0, pre.size(), pre) == 0) V_CHECK(cur.data.count(kv.first.substr(pre.size())), "exposed:stale-cookie", "cookie " + kv.first + " belongs to no key of the session" + after);
@@ -601,7 +615,7 @@ static rc::Gen<Cmd> genCmd(int limit) {
 static rc::Gen<Case> genCase() {
     using namespace rc;
     int maxlen = (int)vr::envl("C06_MAXLEN", 30);
-    int strict = (int)vr::envl("C06_INCLUDE_KNOWN", 0) ? 1 : 0;
+    int strict = 1;      // case-file field kept for the regression case (2 = do not assert cookie life times of unchanged exposed keys)
     std::string only_stor = vr::env("C06_STORAGE", "");
     Gen<int> stor = only_stor == "network" ? gen::just((int)S_NET) : only_stor == "local" ? gen::element((int)S_MEM, (int)S_FILES) : gen::weightedElement<int>({{3, S_MEM}, {3, S_FILES}, {2, S_NET}});
     Gen<Cfg> cfg = gen::map(gen::tuple(gen::weightedElement<int>({{2, L_CLIENT}, {3, L_SERVER}, {4, L_BOTH}}), stor, vr::range<int>(0, 3),
@@ -615,7 +629,26 @@ static rc::Gen<Case> genCase() {
     });
 }
 
+// Safety net only: a case that makes no progress for minutes (a mutated library can dead-lock, e.g. lock/unlock of different
+// mutexes for a malformed identifier) ends the process.  A failure recorded before the hang stays the result (exit 1); a hang
+// alone is counted as inconclusive, never as a violation.
+static void watchdog(long limit_s) {
+    long last = -1, idle = 0;
+    for (;;) {
+        std::this_thread::sleep_for(std::chrono::seconds(1));
+        long p = g_progress.load();
+        if (p != last) { last = p; idle = 0; continue; }
+        if (++idle < limit_s) continue;
+        bool failed = !VR.failures.empty();
+        if (!failed) VR.inconclusive++;
+        fprintf(stderr, "c06_sessions: no progress for %ld s, giving up (%s)\n", limit_s, failed ? "a failure was recorded before" : "inconclusive");
+        VR.finish();
+        _exit(failed ? 1 : 0);
+    }
+}
+
 int main(int argc, char **argv) {
+    if (!vr::replay_arg(argc, argv)) std::thread(watchdog, vr::envl("C06_WATCHDOG", 300)).detach();
     std::vector<std::unique_ptr<vr::PropBase>> props;
     props.push_back(vr::prop<Case>("sessions", genCase(), run_case));
     for (int i = 1; i + 1 < argc; i++) if (!strcmp(argv[i], "--regress")) {       // hand-kept cases (replays/C06/*.case): failures keep their own signature
